@@ -2,6 +2,7 @@
 // regenerate the C07/C12 validator models from hostd's source on every check run.
 //
 //	go run tools/go2coq/main.go tools/go2coq/tables.go tools/go2coq/expr.go tools/go2coq/stmt.go [-root DIR] [-only revision,formation,mdm]
+//	(further groups: add imp.go build.go [filter.go], see FURTHER GROUPS below)
 //
 // reads  $VERIF_REPO/rhp/contracts.go, $VERIF_REPO/rhp/v2/contracts.go, $VERIF_REPO/rhp/v3/contracts.go,
 //
@@ -52,6 +53,19 @@
 //
 // The name mapping (Go field/method/constant -> model vocabulary) is in tables.go and is printed
 // into the header of every generated file.  It is part of the trusted base.
+//
+// FURTHER GROUPS (second translation scheme, imp.go: symbolic execution of imperative functions into a
+// decision tree - loops carrying a result struct, closures, continue, switch with fallthrough, type
+// switches, nil tests, early error returns, oracle calls, assembled slices/strings; its subset is
+// documented at the top of imp.go).  Their files are listed on the command line only by the
+// properties that use them (a group registers itself in init()):
+//
+//	-only build   build.go   host/contracts/update.go buildContractState -> coq/Contracts/gen/BuildGen.v (C01)
+//	              go run tools/go2coq/{main,tables,expr,stmt,imp,build}.go -only build
+//	-only query   filter.go  persist/sqlite/contracts.go buildContractFilter, buildV2ContractFilter, buildOrderBy,
+//	              buildV2OrderBy -> coq/Query/gen/FilterGen.v (C19); SQL fragments through sqlclause.py ->
+//	              tools/sqlgen's clause parser
+//	              go run tools/go2coq/{main,tables,expr,stmt,imp,build,filter}.go -only query
 package main
 
 import (
@@ -95,6 +109,9 @@ type output struct {
 	mdm       bool // MDMGen: the programData vocabulary of coq/MDM
 	group     string
 	targets   []target
+	// groups translated by another scheme (imp.go: build.go, ...) register themselves in init();
+	// the files of such a group are listed on the command line only by the properties that use it
+	custom func(repo string, o *output) (string, []string)
 }
 
 var outputs = []output{
@@ -308,7 +325,11 @@ func main() {
 					panic(r)
 				}
 			}()
-			text, summary := generate(repo, o)
+			gen := generate
+			if o.custom != nil {
+				gen = o.custom
+			}
+			text, summary := gen(repo, o)
 			results = append(results, result{o.path, text, summary})
 		}()
 	}
